@@ -152,6 +152,9 @@ def run(item):
         try:
             for i in steps:
                 def low_stub(grid_, t_, i=i):
+                    # the interval is looked up for the query time itself (a shifted argument moves node times into the wrong interval)
+                    if not ca.MX(t_).is_symbolic():
+                        plan['low_argument'] = str(t_)
                     # casadi.low(v, t): index j with v[j] <= t < v[j+1], clamped to [0, len(v)-2].  Under the path condition
                     # "t lies in integrator step i" this is decided here for the control grid, the integrator grid and
                     # any leading part of the integrator grid; the clamping is reproduced faithfully
@@ -302,6 +305,10 @@ def run(item):
                 P('sampler-value', 'sampler(t_%d+%d*delta)[%d]' % (i, j, s), {dd: (fq[iv][j * nx + s] if dd == 'z' else ex[dd][iv][j * nx + s]) for dd in doms}, {dd: xr(dd, i * r + j, s) for dd in doms})
         for s in range(nx):
             P('sampler-degree', 'd^%d sampler/dt^%d [step %d,%d]' % (d + 1, d + 1, i, s), {dd: (fq[idr][s] if dd == 'z' else ex[dd][idr][s]) for dd in doms}, {dd: cst[dd](0) for dd in doms})
+    if plan.get('low_argument'):
+        V('sampler-lookup-argument', 'low(grid, .)', 'the sampler looks up the interval of %s instead of the query time t: a time exactly on a grid node falls into the wrong interval (controls / algebraic values of the previous interval)' % plan['low_argument'])
+    else:
+        ch.proved.append('sampler looks up the interval of the query time itself')
     for i, iu in plan.get('sampler_u', {}).items():
         for j_ in range(spec.nu):
             P('sampler-control', 'sampler(%d*u%d)(t in step %d)' % (j_ + 2, j_, i), {dd: (fq[iu][j_] if dd == 'z' else ex[dd][iu][j_]) for dd in doms},
